@@ -50,7 +50,7 @@ Ref(op, wx, wy, wz, x, y) ==
       [] op = "mux" -> IF x % 2 = 1 THEN y % P2(wz) ELSE (y \div P2(wz)) % P2(wz)
 
 Wz(kind, wx, wy) == LET m == IF wx > wy THEN wx ELSE wy IN
-                    CASE kind = "max" -> m [] kind = "max+1" -> m + 1 [] kind = "2max" -> 2 * m [] kind = "2max+3" -> 2 * m + 3
+                    CASE kind = "min" -> (IF wx < wy THEN wx ELSE wy) [] kind = "max" -> m [] kind = "max+1" -> m + 1 [] kind = "2max" -> 2 * m [] kind = "2max+3" -> 2 * m + 3
 
 VARIABLES cur, emitted
 vars == <<cur, emitted>>
